@@ -34,10 +34,11 @@ static const struct { const char * s; int ua; double ma; int ub; double mb; } po
 static const scpi_unit_def_t units_b[] = { { "V", SCPI_UNIT_VOLT, 1 }, { "MV", SCPI_UNIT_VOLT, 1e-3 }, { "S", SCPI_UNIT_SECOND, 1 }, { "OHM", SCPI_UNIT_OHM, 1 },
     { "M", SCPI_UNIT_SECOND, 60 }, { "FOO", SCPI_UNIT_UNITLESS, 2 }, SCPI_UNITS_LIST_END };
 static int active_tab; /* 0 = table A, 1 = table B; chosen per case */
-static const struct { const char * s; int tag; } ch_ok[] = { { "LOW", 1 }, { "low", 1 }, { "HI", 2 }, { "HIGH", 2 }, { "med", 3 }, { "MEDIUM", 3 }, { "SOUR", 10 }, { "source", 10 } };
+static const struct { const char * s; int tag; } ch_ok[] = { { "LOW", 1 }, { "low", 1 }, { "HI", 2 }, { "HIGH", 2 }, { "med", 3 }, { "MEDIUM", 3 }, { "SOUR", 10 }, { "source", 10 },
+    { "CH1", 21 }, { "ch1", 21 }, { "TTL0", 22 }, { "EXT", 23 }, { "external2", 23 }, { "P25V", 24 } };
 static const struct { const char * s; int tag; } sp_ok[] = { { "MIN", SCPI_NUM_MIN }, { "minimum", SCPI_NUM_MIN }, { "MAX", SCPI_NUM_MAX }, { "DEF", SCPI_NUM_DEF }, { "DEFAULT", SCPI_NUM_DEF },
     { "UP", SCPI_NUM_UP }, { "down", SCPI_NUM_DOWN }, { "NAN", SCPI_NUM_NAN }, { "INF", SCPI_NUM_INF }, { "INFINITY", SCPI_NUM_INF }, { "NINF", SCPI_NUM_NINF }, { "AUTO", SCPI_NUM_AUTO } };
-static const char * const mn_unknown[] = { "FOO", "MINI", "HIGHER", "ONN", "X_1", "LO" };
+static const char * const mn_unknown[] = { "FOO", "MINI", "HIGHER", "ONN", "X_1", "LO", "CH2", "CH", "TTL", "CH11", "EXTERNAL" };
 static const char * const decs[] = { "0", "1", "12", "-3", "+7", "1.5", "-0.25", ".5", "2e3", "1E-2", "100", "3.", "65535", "-2147483648", "4294967295", "007" };
 
 /* zero padding of the digits: the token length of a number is not bounded (only its value is); lengths are swept around the sizes
@@ -85,7 +86,7 @@ static void gen_item(vh_rng_t * rng, item_t * it) {
         case IT_MN_CHOICE: { int k = (int) vh_below(rng, sizeof ch_ok / sizeof ch_ok[0]); snprintf(it->text, sizeof it->text, "%s", ch_ok[k].s); it->tag = ch_ok[k].tag; break; }
         case IT_MN_SPECIAL: { int k = (int) vh_below(rng, sizeof sp_ok / sizeof sp_ok[0]); snprintf(it->text, sizeof it->text, "%s", sp_ok[k].s); it->tag = sp_ok[k].tag; break; }
         case IT_MN_BOOL: { int on = (int) vh_below(rng, 2); snprintf(it->text, sizeof it->text, "%s", on ? (vh_chance(rng, 1, 2) ? "ON" : "on") : (vh_chance(rng, 1, 2) ? "OFF" : "Off")); it->tag = on; break; }
-        case IT_MN_UNKNOWN: snprintf(it->text, sizeof it->text, "%s", mn_unknown[vh_below(rng, 6)]); break;
+        case IT_MN_UNKNOWN: snprintf(it->text, sizeof it->text, "%s", mn_unknown[vh_below(rng, sizeof mn_unknown / sizeof mn_unknown[0])]); break;
         case IT_STR: {
             static const char * const contents[] = { "", "abc", "a,b", "x;y", "it's", "say \"hi\"", " lead", "trail ", "1", "MIN", "#12", "(1)", "a\tb" };
             const char * c = contents[vh_below(rng, sizeof contents / sizeof contents[0])]; char q = vh_chance(rng, 1, 2) ? '"' : '\''; size_t k = 0; const char * p;
